@@ -449,7 +449,17 @@ func c03Random(r *Rand, mode int, org int64, withJumps bool) *ProgCase {
 				}
 			case 2:
 				if defined {
-					out = append(out, PStmt{K: "data", W: Pick(r, []int{2, 4}), Items: []DItem{{Kind: "label", Label: l, Text: l}}})
+					// the label alone, or among numbers on either side of it
+					items := []DItem{{Kind: "label", Label: l, Text: l}}
+					switch r.Intn(4) {
+					case 1:
+						items = append([]DItem{numItem(poolImm(r, 16), 1)}, items...)
+					case 2:
+						items = append(items, numItem(poolImm(r, 16), 1))
+					case 3:
+						items = append(append([]DItem{numItem(poolImm(r, 16), 1), numItem(int64(r.Intn(100)), 0)}, items...), numItem(poolImm(r, 16), 1))
+					}
+					out = append(out, PStmt{K: "data", W: Pick(r, []int{2, 4}), Items: items})
 				} else {
 					out = append(out, PStmt{K: "movl", Reg: probeReg(mode, r.Intn(8)), Label: "$"})
 				}
